@@ -323,7 +323,10 @@ def run(tier, res, seed):
         for m in re.finditer(r'^[ \t]*#[ \t]*undef[ \t]+(\w+)', text, re.M):
             others = sorted(o for o in defined_in.get(m.group(1), ()) if o != h)
             res.count('#undef directives in public headers inspected')
-            if others:
+            # undefined and then defined again by the same header: a redefinition (whose effect on values the pair units
+            # measure), not a removal
+            again = re.search(r'^[ \t]*#[ \t]*define[ \t]+%s\b' % re.escape(m.group(1)), text[m.end():], re.M)
+            if others and not again:
                 res.violation('undef-of-foreign-macro:%s:%s' % (base(h), m.group(1)),
                               'include/%s: #undef %s removes a macro that include/%s defines: a header included after both that relies '
                               'on it (the definition sits behind an include guard and is not repeated) silently changes meaning'
